@@ -10,6 +10,7 @@ import (
 	"fmt"
 	"os"
 	"sort"
+	"strings"
 	"testing"
 	"time"
 
@@ -20,6 +21,8 @@ import (
 	"pgregory.net/rapid"
 
 	"github.com/ipfs/go-graphsync"
+	"github.com/ipfs/go-graphsync/cidset"
+	"github.com/ipfs/go-graphsync/donotsendfirstblocks"
 	gsimpl "github.com/ipfs/go-graphsync/impl"
 	gsmsg "github.com/ipfs/go-graphsync/message"
 
@@ -35,6 +38,7 @@ type ReqSpec struct {
 	PauseAt int    `json:"pause_at"` // outgoing block hook pauses at this block index (0 = never)
 	ErrAt   int    `json:"err_at"`   // outgoing block hook errors at this block index
 	ExtAt   int    `json:"ext_at"`   // outgoing block hook sends extension data at this index
+	Exts    string `json:"exts"`     // request extensions: "", dncids, dedup, skip, dncids+dedup
 }
 
 type Op struct {
@@ -81,6 +85,9 @@ func Gen(t *rapid.T, maxBlocks int) Case {
 		}
 		if rapid.IntRange(0, 4).Draw(t, "hasext") == 0 {
 			r.ExtAt = rapid.IntRange(1, 4).Draw(t, "extat")
+		}
+		if rapid.IntRange(0, 2).Draw(t, "hasexts") == 0 {
+			r.Exts = rapid.SampledFrom([]string{"dncids", "dedup", "skip", "dncids+dedup"}).Draw(t, "exts")
 		}
 		c.Reqs = append(c.Reqs, r)
 	}
@@ -161,12 +168,15 @@ type Result struct {
 	Labels        map[string]bool
 	CancelMsgs    map[int]int  // cancel messages the request's peer sent after the New request
 	UpdOnComplete map[int]bool // the responder's SendUpdate API was called while the response was listed as completing send
+	// ProbeMissing: after everything was retired a fresh, plain request from each peer must be sent every
+	// block again; blocks withheld from it (per peer) reveal link-tracking state kept for retired requests
+	ProbeMissing  map[string][]string
 	MixedSnapshot bool // some snapshot held a paused/completing request beside a queued/running one
 }
 
 // Run executes the case.
 func Run(t *testing.T, c Case) *Result {
-	res := &Result{CancelMsgs: map[int]int{}, UpdOnComplete: map[int]bool{}, Received: map[int]bool{}, Events: map[int]*Events{}, WireTerminal: map[int][]graphsync.ResponseStatusCode{}, Labels: map[string]bool{}}
+	res := &Result{ProbeMissing: map[string][]string{}, CancelMsgs: map[int]int{}, UpdOnComplete: map[int]bool{}, Received: map[int]bool{}, Events: map[int]*Events{}, WireTerminal: map[int][]graphsync.ResponseStatusCode{}, Labels: map[string]bool{}}
 	b, err := c.DAG.Build()
 	if err != nil {
 		res.Skip = true
@@ -206,8 +216,9 @@ func Run(t *testing.T, c Case) *Result {
 			stallSet[i] = true
 		}
 		sendN := 0
+		probing := false
 		w.Net.SendPolicy = func(from, to peer.ID, n int, m gsmsg.GraphSyncMessage) sim.SendOutcome {
-			if from != scen.RespID {
+			if from != scen.RespID || probing {
 				return sim.SendOK
 			}
 			k := sendN
@@ -228,7 +239,7 @@ func Run(t *testing.T, c Case) *Result {
 			connFail[i] = true
 		}
 		w.Net.ConnectPolicy = func(from, to peer.ID) error {
-			if from != scen.RespID {
+			if from != scen.RespID || probing {
 				return nil
 			}
 			k := connN
@@ -253,6 +264,7 @@ func Run(t *testing.T, c Case) *Result {
 		rs.GS.RegisterIncomingRequestHook(func(p peer.ID, rd graphsync.RequestData, ha graphsync.IncomingRequestHookActions) {
 			i, ok := idx[rd.ID()]
 			if !ok {
+				ha.ValidateRequest() // the probe requests at the end
 				return
 			}
 			switch c.Reqs[i].ReqHook {
@@ -367,7 +379,23 @@ func Run(t *testing.T, c Case) *Result {
 					continue
 				}
 				res.Received[i] = true
-				send(p, gsmsg.NewRequest(id, rootOf(i), c.Sel.Node(), graphsync.Priority(i)), op.Fast)
+				var exts []graphsync.ExtensionData
+				if strings.Contains(c.Reqs[i].Exts, "dncids") {
+					set := cid.NewSet()
+					for k, cc := range b.Order {
+						if k%2 == 0 {
+							set.Add(cc)
+						}
+					}
+					exts = append(exts, graphsync.ExtensionData{Name: graphsync.ExtensionDoNotSendCIDs, Data: cidset.EncodeCidSet(set)})
+				}
+				if strings.Contains(c.Reqs[i].Exts, "dedup") {
+					exts = append(exts, graphsync.ExtensionData{Name: graphsync.ExtensionDeDupByKey, Data: basicnode.NewString(fmt.Sprintf("key-%d", i%2))})
+				}
+				if strings.Contains(c.Reqs[i].Exts, "skip") {
+					exts = append(exts, graphsync.ExtensionData{Name: graphsync.ExtensionsDoNotSendFirstBlocks, Data: donotsendfirstblocks.EncodeDoNotSendFirstBlocks(2)})
+				}
+				send(p, gsmsg.NewRequest(id, rootOf(i), c.Sel.Node(), graphsync.Priority(i), exts...), op.Fast)
 			case "cancelmsg":
 				if res.Received[i] {
 					res.CancelMsgs[i]++
@@ -463,6 +491,30 @@ func Run(t *testing.T, c Case) *Result {
 		res.PendingAlloc = st.OutgoingResponses.TotalPendingAllocations
 		res.StatsActive = st.IncomingRequests.Active
 		res.StatsPending = st.IncomingRequests.Pending
+		// probe: a fresh, plain request from each peer is sent every block it reaches
+		if len(res.FinalStates) == 0 {
+			probing = true
+			full := dagen.RefFull(b, dagen.Canonical(c.Sel.Node()))
+			for pi, p := range Peers {
+				from := len(w.Net.SentSince(0))
+				pid, _ := graphsync.ParseRequestID([]byte(fmt.Sprintf("c05-probe-req--%d", pi)))
+				send(p, gsmsg.NewRequest(pid, b.Root, c.Sel.Node(), 0), false)
+				got := map[cid.Cid]bool{}
+				for _, e := range w.Net.SentSince(from) {
+					if e.From == scen.RespID && e.To == p {
+						for _, blk := range e.Msg.Blocks() {
+							got[blk.Cid()] = true
+						}
+					}
+				}
+				for _, l := range full.Loads {
+					if l.Present && !got[l.Cid] {
+						got[l.Cid] = true
+						res.ProbeMissing[string(p)] = append(res.ProbeMissing[string(p)], l.Cid.String())
+					}
+				}
+			}
+		}
 		if os.Getenv("VERIF_TRACE") != "" {
 			fmt.Println(w.Net.Transcript())
 			for _, s := range res.Snapshots {
